@@ -279,6 +279,11 @@ def run_shard(spec):
                 deps = {k: set(v) for k, v in ex['true_dependencies'].items()}
                 run_set(sch, deps, [ex['order']], False)
                 return acc.done()
+            # canary of the recorded finding: a constant naming an enumerator (isar puts constants first)
+            can = S.Schema([S.Enum('CE', [('CE_A', 2), ('CE_B', 3)]), S.Const('CK', 2, 'CE_A'),
+                            S.Struct('CS', [S.Member('a', 'u8', S.FIXED, 2, size_text='CK')])])
+            run_set(can, {'CE': set(), 'CK': {'CE'}, 'CS': {'CK'}},
+                    list(itertools.permutations(['CE', 'CK', 'CS'])), True)
             for k in range(spec['small']):
                 n = rng.randint(3, 5)
                 sch, deps = gen_dag(rng, n)
